@@ -167,3 +167,18 @@ MANIFEST_TEXT['C06'] = dict(
     level_text='Solver-exhaustive within bounds over table shapes, index arrangements, list arrangements and clause interleavings.',
     level_note='Trusted: CrossHair/z3, PLY. JSON side only.')
 _finalise()
+
+PROPS['C03'] = dict(
+    modules=['harness.c03_json'], level='other', files=TOK_FILES + ['pysmi/codegen/templates/jsondoc/base.j2'],
+    explanation=XH + '. C03: modules with 1-3 declarations of symbolic kind and symbolic names go through the real parser, symbol table '
+                'and JSON code generator; the context handed to the (single tojson) template must have exactly the declared keys with the declared data.',
+    functions=TOK_FUNCS, stubs=TOK_STUBS,
+    bounds='<=3 declarations over 13 kinds, names from a 7+3 pool, one symbolic string of len<=3..5 per condition',
+    outside=['jinja2 and json themselves', 'names that differ only in -/_'],
+    assumptions=['declared names are distinct'])
+MANIFEST_TEXT['C03'] = dict(
+    technique='CrossHair symbolic execution of parser + symtable + JsonCodeGen (render captured) on declaration sentences; static template check',
+    level_text='Solver-exhaustive within bounds: every pair/triple of declaration kinds, every pair of names from the pool, every status/access word '
+               'of <=3 characters, every units text of <=3 characters.',
+    level_note='Trusted: CrossHair/z3, PLY, jinja2 tojson. Template checked statically to be a single mib|tojson output.')
+_finalise()
